@@ -4,7 +4,7 @@
    trace : 1 (outs dump)*     one block per op, see enc_out / dump. *)
 From Coq Require Import List NArith Bool.
 From V.common Require Import Wire.
-From V.Ts Require Import Model Report.
+From V.Ts Require Import Model Report ReportDead.
 Import ListNotations.
 Open Scope N_scope.
 
@@ -407,35 +407,45 @@ Definition prop_ok_C09_svc (case trace : list N) : bool :=
   end.
 
 (* ====================================================================================
-   report level (case kind 2): the reporting side of ProtocolSet, see Report.v
+   report level (case kind 2): the reporting side of ProtocolSet, see Report.v / ReportDead.v
      case  : 2 nproto cap nops (tag a b c)*
+             tag 1 report_substream_open(conn a, protocol b, direction c = 0 inbound | id+1)
+                 2 report_substream_open_failure(conn a, protocol b, id c)
+                 3 report_connection_established(conn a; b = bit mask of the protocols polled
+                   before the first dead one — only meaningful when a protocol is dead; the
+                   harness fills it in from the table order of the run)
+                 4 report_connection_closed(conn a)    5 protocol a receives up to b events
+                 6 protocol a drops its receiver
      trace : 2 (code got done qlens nbusy)*
    ==================================================================================== *)
-Definition p_rop : parser rop :=
+Definition p_dop : parser dop :=
   let* tag := pN in let* a := pN in let* b := pN in let* c := pN in
   match tag with
-  | 1 => pret (RSubOpen a b (dec_opt c))
-  | 2 => pret (RSubFail a b c)
-  | 3 => pret (REst a)
-  | 4 => pret (RClosed a)
-  | 5 => pret (RDrain a b)
+  | 1 => pret (DBase (RSubOpen a b (dec_opt c)))
+  | 2 => pret (DBase (RSubFail a b c))
+  | 3 => pret (DEst a b)
+  | 4 => pret (DBase (RClosed a))
+  | 5 => pret (DBase (RDrain a b))
+  | 6 => pret (DKill a)
   | _ => pfail
   end.
-Definition rop_small (o : rop) : bool :=
+Definition dop_small (o : dop) : bool :=
   match o with
-  | RSubOpen c p d => small c && small p && match d with Some i => small i | None => true end
-  | RSubFail c p i => small c && small p && small i
-  | REst c | RClosed c => small c
-  | RDrain p k => small p && (k <? 1000)
+  | DBase (RSubOpen c p d) => small c && small p && match d with Some i => small i | None => true end
+  | DBase (RSubFail c p i) => small c && small p && small i
+  | DBase (REst c) | DBase (RClosed c) => small c
+  | DBase (RDrain p k) => small p && (k <? 1000)
+  | DEst c m => small c && (m <? 256)
+  | DKill p => small p
   end.
-Definition rest_ids (l : list rop) : list N :=
-  flat_map (fun o => match o with REst c => [c] | _ => [] end) l.
+Definition rest_ids (l : list dop) : list N :=
+  flat_map (fun o => match o with DEst c _ => [c] | _ => [] end) l.
 (* a connection reports "established" at most once (ConnectionHandle::downgrade panics otherwise) *)
-Definition decode_rcase (l : list N) : option (nat * nat * list rop) :=
-  match pall (let* kind := pN in let* n := pN in let* cap := pN in let* ops := plist p_rop in
+Definition decode_rcase (l : list N) : option (nat * nat * list dop) :=
+  match pall (let* kind := pN in let* n := pN in let* cap := pN in let* ops := plist p_dop in
               pret (kind, n, cap, ops)) l with
   | Some (kind, n, cap, ops) =>
-      if (kind =? 2) && (1 <=? n) && (n <=? 8) && (1 <=? cap) && (cap <=? 64) && forallb rop_small ops
+      if (kind =? 2) && (1 <=? n) && (n <=? 8) && (1 <=? cap) && (cap <=? 64) && forallb dop_small ops
          && nodup_b (rest_ids ops)
       then Some (N.to_nat n, N.to_nat cap, ops) else None
   | None => None
@@ -450,17 +460,17 @@ Definition enc_item (i : item) : list N :=
   end.
 Definition rdump (s : rst) : list N :=
   enc_list (fun ch => [N.of_nat (length (rq ch))]) (r_ch s) ++ [N.of_nat (length (sort_nodup (waiters s)))].
-Fixpoint rrun_trace (s : rst) (l : list rop) : list N :=
+Fixpoint drun_trace (d : dst) (l : list dop) : list N :=
   match l with
   | [] => []
   | o :: t =>
-      let '(s', r) := rstep s o in
-      [o_code r] ++ enc_list enc_item (o_got r) ++ enc_list (fun c => [c; 0]) (o_done r) ++ rdump s'
-      ++ rrun_trace s' t
+      let '(d', r) := dstep d o in
+      [do_code r] ++ enc_list enc_item (do_got r) ++ enc_list (fun c : N * N => [fst c; snd c]) (do_done r)
+      ++ rdump (d_s d') ++ drun_trace d' t
   end.
 Definition run_report (l : list N) : list N :=
   match decode_rcase l with
-  | Some (n, cap, ops) => 2 :: rrun_trace (rinit n cap) ops
+  | Some (n, cap, ops) => 2 :: drun_trace (dinit n cap) ops
   | None => [0]
   end.
 
@@ -482,85 +492,141 @@ Definition p_rstep : parser rstepobs :=
   let* ql := plist pN in let* nb := pN in pret (mkRS code got dn ql nb).
 
 Record rost := mkRO { ro_acc : list (list triple); ro_del : list (list triple); ro_busy : list N;
-                      ro_last : list N; ro_ok : bool }.
+                      ro_last : list N; ro_ok : bool;
+                      ro_dead : list N;          (* protocols whose receiver is gone *)
+                      ro_closing : list N;       (* connections whose pending report is "closed" *)
+                      ro_leak : bool;            (* F-C07b: a failed "established" reached a protocol *)
+                      ro_gone : list N }.        (* connections given up after a failed "established" *)
 Definition app_at (n : nat) (x : list triple) (l : list (list triple)) : list (list triple) :=
   upd n (fun old => old ++ x) l.
-Definition rjudge_step (nproto cap : nat) (o : rost) (op : rop) (ob : rstepobs) : rost :=
-  let is_busy c := mem c (ro_busy o) in
+Definition rjudge_step (nproto cap : nat) (o : rost) (op : dop) (ob : rstepobs) : rost :=
+  let is_busy c := mem c (ro_busy o) || mem c (ro_gone o) in
   let known p := Nat.ltb (N.to_nat p) nproto in
+  let dead p := mem p (ro_dead o) in
+  let anydead := match ro_dead o with [] => false | _ => true end in
   let started := (rs_code ob =? 0) || (rs_code ob =? 1) in
-  (* the verdict on the result code: a report on a free connection to a known protocol is
+  (* the verdict on the result code: a report on a free connection to a live, known protocol is
      accepted (completed or waiting) — it never fails and is never dropped *)
   let code_ok :=
     match op with
-    | RSubOpen c p _ | RSubFail c p _ =>
-        if is_busy c then rs_code ob =? 2 else if known p then started else rs_code ob =? 3
-    | REst c | RClosed c => if is_busy c then rs_code ob =? 2 else started
-    | RDrain _ _ => rs_code ob =? 0
+    | DBase (RSubOpen c p _) | DBase (RSubFail c p _) =>
+        if is_busy c then rs_code ob =? 2
+        else if known p && negb (dead p) then started else rs_code ob =? 3
+    | DEst c _ => if is_busy c then rs_code ob =? 2 else if anydead then rs_code ob =? 3 else started
+    | DBase (RClosed c) =>
+        if is_busy c then rs_code ob =? 2 else if anydead then (rs_code ob =? 1) || (rs_code ob =? 3) else started
+    | DBase (RDrain _ _) => rs_code ob =? 0
+    | DBase (REst _) => rs_code ob =? 2
+    | DKill p => if known p && negb (dead p) && match ro_busy o with [] => true | _ => false end
+                 then rs_code ob =? 0 else rs_code ob =? 2
     end in
-  let wire : option (N * list triple) :=    (* which protocol (None = all), which event *)
-    match op with
-    | RSubOpen c p d => Some (p + 1, [(3, c, enc_opt d)])
-    | RSubFail c p i => Some (p + 1, [(4, 0, i)])
-    | REst c => Some (0, [(1, c, 0)])
-    | RClosed c => Some (0, [(2, c, 0)])
-    | RDrain _ _ => None
-    end in
+  let free c := negb (is_busy c) in
+  let room p := match nth_error (ro_last o) p with Some q => q <? N.of_nat cap | None => false end in
+  (* which protocols are handed which event *)
   let acc' :=
-    if started then
-      match wire with
-      | Some (0, ev) => map (fun a => a ++ ev) (ro_acc o)
-      | Some (p1, ev) => app_at (N.to_nat (p1 - 1)) ev (ro_acc o)
-      | None => ro_acc o
-      end
-    else ro_acc o in
+    match op with
+    | DBase (RSubOpen c p d) =>
+        if started then app_at (N.to_nat p) [(3, c, enc_opt d)] (ro_acc o) else ro_acc o
+    | DBase (RSubFail c p i) =>
+        if started then app_at (N.to_nat p) [(4, 0, i)] (ro_acc o) else ro_acc o
+    | DEst c m =>
+        if free c then
+          if anydead
+          then mapi (fun i a => if N.testbit m (N.of_nat i) && negb (dead (N.of_nat i)) && room i
+                                then a ++ [(1, c, 0)] else a) O (ro_acc o)
+          else if started then map (fun a => a ++ [(1, c, 0)]) (ro_acc o) else ro_acc o
+        else ro_acc o
+    | DBase (RClosed c) =>
+        if free c && ((rs_code ob =? 0) || (rs_code ob =? 1) || (rs_code ob =? 3))
+        then mapi (fun i a => if dead (N.of_nat i) then a else a ++ [(2, c, 0)]) O (ro_acc o)
+        else ro_acc o
+    | _ => ro_acc o
+    end in
+  let leak' :=
+    match op with
+    | DEst c m =>
+        free c && anydead &&
+        existsb (fun i => N.testbit m (N.of_nat i) && negb (dead (N.of_nat i)) && room i) (seq 0 nproto)
+    | _ => false
+    end in
   let del' := match op with
-              | RDrain p _ => app_at (N.to_nat p) (rs_got ob) (ro_del o)
+              | DBase (RDrain p _) => app_at (N.to_nat p) (rs_got ob) (ro_del o)
               | _ => ro_del o
               end in
-  let got_ok := match op with RDrain _ _ => true | _ => match rs_got ob with [] => true | _ => false end end in
-  let conn_of := match op with RSubOpen c _ _ | RSubFail c _ _ | REst c | RClosed c => Some c | RDrain _ _ => None end in
+  (* a killed protocol is out of the accounting from now on *)
+  let killed := match op with DKill p => rs_code ob =? 0 | _ => false end in
+  let acc'' := match op with DKill p => if killed then upd (N.to_nat p) (fun _ => []) acc' else acc' | _ => acc' end in
+  let del'' := match op with DKill p => if killed then upd (N.to_nat p) (fun _ => []) del' else del' | _ => del' end in
+  let dead' := match op with DKill p => if killed then p :: ro_dead o else ro_dead o | _ => ro_dead o end in
+  let got_ok := match op with DBase (RDrain _ _) => true | _ => match rs_got ob with [] => true | _ => false end end in
+  let conn_of := match op with
+                 | DBase (RSubOpen c _ _) | DBase (RSubFail c _ _) | DBase (REst c) | DBase (RClosed c) | DEst c _ => Some c
+                 | _ => None end in
   let busy1 := match conn_of with
                | Some c => if rs_code ob =? 1 then c :: ro_busy o else ro_busy o
                | None => ro_busy o
                end in
-  let done_ok := forallb (fun d : N * N => (snd d =? 0) && mem (fst d) busy1) (rs_done ob) in
+  let closing1 := match op with
+                  | DBase (RClosed c) => if rs_code ob =? 1 then c :: ro_closing o else ro_closing o
+                  | _ => ro_closing o
+                  end in
+  (* a waiting report completes without error — except "closed" when a protocol is dead *)
+  let done_ok := forallb (fun d : N * N => mem (fst d) busy1 &&
+                            (snd d =? (if anydead && mem (fst d) closing1 then 1 else 0))) (rs_done ob) in
   let busy2 := filter (fun c => negb (existsb (fun d : N * N => fst d =? c) (rs_done ob))) busy1 in
+  let closing2 := filter (fun c => negb (existsb (fun d : N * N => fst d =? c) (rs_done ob))) closing1 in
   let ok :=
     code_ok && got_ok && done_ok &&
     (* received so far is a prefix of accepted so far, per protocol: in order, no loss, no duplicate *)
-    list_eqb (fun d a => prefix_b d a) del' acc' && (Nat.eqb (length del') (length acc')) &&
+    list_eqb (fun d a => prefix_b d a) del'' acc'' && (Nat.eqb (length del'') (length acc'')) &&
     forallb (fun q => q <=? N.of_nat cap) (rs_qlens ob) &&
     (rs_busy ob =? N.of_nat (length busy2)) in
-  mkRO acc' del' busy2 (rs_qlens ob) (ro_ok o && ok).
-Fixpoint rjudge (nproto cap : nat) (o : rost) (ops : list rop) (obs : list rstepobs) : rost :=
+  let gone' := match op with DEst c _ => if free c && anydead then c :: ro_gone o else ro_gone o | _ => ro_gone o end in
+  mkRO acc'' del'' busy2 (rs_qlens ob) (ro_ok o && ok) dead' closing2 (ro_leak o || leak') gone'.
+Fixpoint rjudge (nproto cap : nat) (o : rost) (ops : list dop) (obs : list rstepobs) : rost :=
   match ops, obs with
   | op :: t, ob :: ob' => rjudge nproto cap (rjudge_step nproto cap o op ob) t ob'
   | _, _ => o
   end.
-Fixpoint all3 (a d : list (list triple)) (q : list N) : bool :=
+Fixpoint all3 (dead : list N) (i : N) (a d : list (list triple)) (q : list N) : bool :=
   match a, d, q with
   | [], [], [] => true
-  | x :: a', y :: d', n :: q' => (N.of_nat (length x) =? N.of_nat (length y) + n) && all3 a' d' q'
+  | x :: a', y :: d', n :: q' =>
+      (mem i dead || (N.of_nat (length x) =? N.of_nat (length y) + n)) && all3 dead (i + 1) a' d' q'
   | _, _, _ => false
   end.
-Definition report_ok (case trace : list N) : bool :=
+Definition rjudged (case trace : list N) : option rost :=
   match decode_rcase case, trace with
   | Some (n, cap, ops), 2 :: body =>
       match pall (prep (length ops) p_rstep) body with
-      | Some obs =>
-          let o := rjudge n cap (mkRO (repeat [] n) (repeat [] n) [] (repeat 0 n) true) ops obs in
-          ro_ok o &&
-          (* when no report is left waiting: accepted = received + queued, per protocol *)
-          match ro_busy o with
-          | [] => all3 (ro_acc o) (ro_del o) (ro_last o)
-          | _ => true
-          end
-      | None => false
+      | Some obs => Some (rjudge n cap (mkRO (repeat [] n) (repeat [] n) [] (repeat 0 n) true [] [] false []) ops obs)
+      | None => None
       end
-  | None, [0] => true
-  | _, _ => false
+  | _, _ => None
   end.
+(* the correspondence-independent part: codes, order, no loss, no duplicate *)
+Definition report_sound (case trace : list N) : bool :=
+  match rjudged case trace with
+  | Some o =>
+      ro_ok o &&
+      (* when no report is left waiting: accepted = received + queued, per live protocol *)
+      match ro_busy o with
+      | [] => all3 (ro_dead o) 0 (ro_acc o) (ro_del o) (ro_last o)
+      | _ => true
+      end
+  | None => false
+  end.
+(* the property: additionally, nobody is told "established" for a connection that is given up
+   (and will never be reported closed) *)
+Definition report_ok (case trace : list N) : bool :=
+  match decode_rcase case, trace with
+  | None, [0] => true
+  | _, _ => report_sound case trace && match rjudged case trace with Some o => negb (ro_leak o) | None => false end
+  end.
+(* known class 1 (F-C07b seen from the protocols): the only thing wrong is that leak *)
+Definition report_known (case trace : list N) : N :=
+  if report_sound case trace && match rjudged case trace with Some o => ro_leak o | None => false end
+  then 1 else 0.
 
 (* ---- dispatch on the case kind ---- *)
 Definition run_case (l : list N) : list N :=
@@ -569,3 +635,5 @@ Definition prop_ok_C08 (case trace : list N) : bool :=
   match case with 2 :: _ => report_ok case trace | _ => prop_ok_C08_svc case trace end.
 Definition prop_ok_C09 (case trace : list N) : bool :=
   match case with 2 :: _ => true | _ => prop_ok_C09_svc case trace end.
+Definition known_class_C08 (case trace : list N) : N :=
+  match case with 2 :: _ => report_known case trace | _ => 0 end.
